@@ -215,7 +215,8 @@ class Run:
     def __init__(self, pid, tier, seed):
         self.pid, self.tier, self.seed = pid, tier, seed
         self.mod = importlib.import_module("props." + pid)
-        self.bdir = os.path.join(VERIF, "build", pid)
+        # one private build directory per run: concurrent runs of the same check must not wipe each other's files
+        self.bdir = os.path.join(VERIF, "build", "%s.%d" % (pid, os.getpid()))
         self.broken = []  # (what, detail)  broken ties / proofs
         self.violations = []  # (case, failure, contradicts)
         self.known_hits = {}
@@ -470,6 +471,15 @@ class Run:
         json.dump(ev, open(os.path.join(VERIF, "evidence", self.pid + ".json"), "w"), indent=1)
         for ln in lines:
             print(ln)
+        if exit_code == 0 and not os.environ.get("VERIF_KEEP_BUILD"):
+            shutil.rmtree(self.bdir, ignore_errors=True)  # generated files are kept only for diagnosing a failure
+        else:
+            latest = os.path.join(VERIF, "build", self.pid)
+            shutil.rmtree(latest, ignore_errors=True)
+            try:
+                os.rename(self.bdir, latest)
+            except OSError:
+                pass
         print("%s %s: obligations %d/%d, cases %d, disagreements %d, known findings %d, %.1fs -> %s" % (
             self.pid, self.tier, self.discharged, self.obligations, cov["evaluations"],
             cov.get("model_impl_disagreements", 0), len(self.known_hits), time.time() - self.t0,
